@@ -259,6 +259,31 @@ impl StreamDecoder {
         self.fatal.is_none() && !self.buf.is_empty()
     }
 
+    /// The bytes seen so far cannot be continued into a well-formed stream: the verdict is in,
+    /// or every possible continuation of the incomplete head ends in one. A decoder may give up
+    /// at any point from here on.
+    pub fn doomed(&self) -> bool {
+        if self.fatal.is_some() {
+            return true;
+        }
+        let b = &self.buf;
+        if b.len() < 4 {
+            return false;
+        }
+        let len = u32::from_be_bytes([b[0], b[1], b[2], b[3]]) as usize;
+        if b.len() == 4 {
+            // oversized whatever the id turns out to be: only a handshake (first byte 19) is
+            // exempt from the size limit
+            return len > MAX_FRAME && b[0] != 19;
+        }
+        if b[4] == 84 && b[0] == 19 {
+            // handshake in progress: a protocol string that already deviates
+            let k = b.len().min(20);
+            return b[1..k] != PSTR[..k - 1];
+        }
+        false
+    }
+
     fn eat(&mut self, n: usize) {
         self.buf.drain(..n);
         self.consumed += n;
